@@ -655,7 +655,7 @@ func devWhy(k *Conc, c *ACase) string {
 				f := map[string]string{"L_f1": "f1", "L_f2": "f2"}[st.Arg]
 				operand, tag = k.Feat[f].S, k.Feat[f].Tag
 			}
-			if strings.HasSuffix(operand, "'") || strings.HasPrefix(operand, "'") || strings.Contains(operand, `\`) {
+			if strings.HasSuffix(operand, "'") || strings.Contains(operand, `\`) {
 				return "linefilter:like-escaping|" + tag + "|" + likeKind(st.Op)
 			}
 		}
@@ -693,7 +693,7 @@ func likeHostile(k *Conc, c *ACase) bool {
 		} else if strings.HasPrefix(st.Arg, "L_") {
 			operand = k.Feat[map[string]string{"L_f1": "f1", "L_f2": "f2"}[st.Arg]].S
 		}
-		if strings.HasSuffix(operand, "'") || strings.HasPrefix(operand, "'") || strings.Contains(operand, `\`) {
+		if strings.HasSuffix(operand, "'") || strings.Contains(operand, `\`) {
 			return true
 		}
 	}
